@@ -20,6 +20,7 @@ CONSTANTS
   MaxNet = 0
   W = {}
   MayTimeout = {a, b, c}
+  MayLink = {}
   Gen = FALSE
 INIT HInit
 NEXT HNext
